@@ -39,14 +39,16 @@ class Scenario:
         return {'scenario': self.name, **self.params}
 
 
-def analyze(scn, timeout_s=900, reduce=True, por=True, K=None, want_witness=True, verbose=False,
-            slack=0, seed=0, max_states=20000, max_explore_s=30.0, max_iters=200):
+def analyze_bmc(scn, timeout_s=900, reduce=True, por=True, K=None, want_witness=True, verbose=False,
+            slack=0, seed=0, max_states=20000, max_explore_s=30.0, max_iters=200, deepen=True, on_violation=None):
     """Returns a dict: verdict in {'holds','violation','inconclusive'}, queries, stats, cex."""
     rt = _rtmod.reset_runtime()
     rt.caps = dict(scn.caps)
     rt.max_ops = scn.max_ops
     rt.scn_files = (sys.modules[type(scn).__module__].__file__,)
-    res = {'scenario': scn.describe(), 'queries': [], 'verdict': 'inconclusive', 'iterations': 0}
+    res = {'scenario': scn.describe(), 'queries': [], 'verdict': 'inconclusive', 'iterations': 0,
+           'known': []}
+    exclude = []
     t0 = time.time()
     solver_s = 0.0
     with stubs.patched(scn.modules, deque_in=scn.deque_in, extra=scn.extra_patches()):
@@ -67,12 +69,19 @@ def analyze(scn, timeout_s=900, reduce=True, por=True, K=None, want_witness=True
                 res['reason'] = f'product: {type(e).__name__}: {e}'
                 return res
             depth = sum(prod.depth(t) for t in prod.threads)
-            KK = K or (depth + slack)
-            t1 = time.time()
-            enc = Encoding(prod, scn, por=por, halt=scn.halt).unroll(KK)
-            enc_s = time.time() - t1
-            r, dt, m = enc.query('violation', timeout_s)
-            solver_s += dt
+            Kfull = K or (depth + slack)
+            # deepening: a violation or a frontier edge is usually reachable in far fewer steps
+            for KK in ([max(6, Kfull // 3), max(8, (2 * Kfull) // 3)] if deepen and Kfull > 14 else []) + [Kfull]:
+                t1 = time.time()
+                enc = Encoding(prod, scn, por=por, halt=scn.halt, exclude=exclude).unroll(KK)
+                enc_s = time.time() - t1
+                r, dt, m = enc.query('violation', timeout_s)
+                solver_s += dt
+                if r != 'unsat':
+                    break
+                if KK != Kfull:
+                    res['queries'].append({'query': 'violation-or-frontier', 'result': r,
+                                           'solver_s': round(dt, 2), 'K': KK})
             if verbose:
                 print(f'  iter {res["iterations"]}: K={KK} {prod.stats()} encode={enc_s:.1f}s '
                       f'violation/frontier query: {r} {dt:.1f}s', file=sys.stderr)
@@ -88,20 +97,36 @@ def analyze(scn, timeout_s=900, reduce=True, por=True, K=None, want_witness=True
                         res['reason'] = f'frontier expansion: {type(e).__name__}: {e}'
                         return res
                     continue
+                if kind == 'overflow':
+                    res['reason'] = 'a container bound of the model (cap) is reachable: raise caps'
+                    break
                 res['queries'].append({'query': 'violation', 'result': r, 'solver_s': round(dt, 2), 'K': KK})
-                res.update(verdict='violation', cex={'kind': kind, 'step': k, 'inputs': inputs, 'steps': steps,
-                                                    'where': where_threads(enc, prod, m, k)})
+                cex = {'kind': kind, 'step': k, 'inputs': inputs, 'steps': steps,
+                       'where': where_threads(enc, prod, m, k), 'signature': signature(enc, prod, m, k, kind)}
+                if on_violation is not None:
+                    # the caller replays it on the real code; a reproduced violation that is a listed
+                    # known finding is excluded from the query and the search goes on
+                    decision = on_violation(cex)
+                    if decision is not None:
+                        exclude.append(decision)
+                        res['known'].append(cex)
+                        continue
+                res.update(verdict='violation', cex=cex)
                 break
             res['queries'].append({'query': 'violation-or-frontier', 'result': r, 'solver_s': round(dt, 2), 'K': KK})
             if r != 'unsat':
                 res['reason'] = f'violation query: {r}'
                 break
-            r2, dt2, m2 = enc.query('bound', timeout_s)
-            solver_s += dt2
-            res['queries'].append({'query': 'bound', 'result': r2, 'solver_s': round(dt2, 2), 'K': KK})
-            if r2 != 'unsat':
-                res['reason'] = f'bound check {r2}: K={KK} or a container bound is too small'
-                break
+            if prod.cyclic or K:
+                # K is not a structural upper bound of the run length: discharge the unwinding check
+                r2, dt2, m2 = enc.query('bound', timeout_s)
+                solver_s += dt2
+                res['queries'].append({'query': 'bound', 'result': r2, 'solver_s': round(dt2, 2), 'K': KK})
+                if r2 != 'unsat':
+                    res['reason'] = f'bound check {r2}: K={KK} is too small'
+                    break
+            else:
+                res['K_is_structural_bound'] = True
             if want_witness:
                 r3, dt3, m3 = enc.query('witness', timeout_s)
                 solver_s += dt3
@@ -123,6 +148,188 @@ def analyze(scn, timeout_s=900, reduce=True, por=True, K=None, want_witness=True
     return res
 
 
+def analyze(scn, timeout_s=900, reduce=True, verbose=False, seed=0, raw_states=30000, raw_s=20.0,
+            red_states=3_000_000, red_s=900.0, max_iters=60, on_violation=None, want_witness=True,
+            local_states=300, **_ignored):
+    """Inductive-invariant analysis (induct.py).  Returns a dict: verdict in
+    {'holds','violation','inconclusive'}, queries, stats, cex / witness (as schedules)."""
+    from .induct import Inductive
+    rt = _rtmod.reset_runtime()
+    rt.caps = dict(scn.caps)
+    rt.max_ops = scn.max_ops
+    rt.scn_files = (sys.modules[type(scn).__module__].__file__,)
+    res = {'scenario': scn.describe(), 'queries': [], 'verdict': 'inconclusive', 'iterations': 0,
+           'known': [], 'method': 'inductive invariant (1-induction over a learned state set)'}
+    exclude = []
+    t0 = time.time()
+    solver_s = 0.0
+    prod = ind = None
+    with stubs.patched(scn.modules, deque_in=scn.deque_in, extra=scn.extra_patches(),
+                       tracked=getattr(scn, 'tracked', ())):
+        ex = Explorer(scn, seed=seed, verbose=verbose)
+        try:
+            ex.explore(max_states=raw_states, max_s=raw_s)
+        except Exception as e:
+            res['reason'] = f'exploration: {type(e).__name__}: {e}'
+            return res
+
+        def steps_of(path, extra=None):
+            st = [(t, [(d, c) for d, c, _ in e.prims]) for (t, e) in path]
+            if extra is not None:
+                t, e = extra
+                st.append((t, [(d, c) for d, c, _ in e.prims]))
+            return st
+
+        while True:
+            res['iterations'] += 1
+            if res['iterations'] > max_iters:
+                res['reason'] = 'frontier closure did not converge'
+                break
+            try:
+                prod = Product(ex, scn, reduce=reduce)
+                ind = Inductive(prod, scn, exclude=exclude, cenv=ex.cenv)
+                t1 = time.time()
+                complete, fhits = ind.red.explore(max_states=red_states, max_s=red_s)
+                red_t = time.time() - t1
+            except Exception as e:
+                res['reason'] = f'product: {type(e).__name__}: {e}'
+                break
+            if verbose:
+                print(f'  iter {res["iterations"]}: {prod.stats()} reduced_states={len(ind.red.states)} '
+                      f'complete={complete} frontier_hits={len(fhits)} ({red_t:.1f}s)', file=sys.stderr)
+            if fhits:
+                # parts of some thread's tree have not been executed yet: execute them and rebuild
+                seen = set()
+                try:
+                    for (k, t, e) in fhits:
+                        sig = (t, e.src, tuple((d, c) for d, c, _ in e.prims))
+                        if sig in seen:
+                            continue
+                        seen.add(sig)
+                        ex.continue_from(steps_of(ind.red.path_to(k), (t, e)), {}, None,
+                                         max_states=local_states, max_s=2.0)
+                except Exception as e_:
+                    res['reason'] = f'frontier expansion: {type(e_).__name__}: {e_}'
+                    break
+                continue
+            if not complete:
+                res['reason'] = f'reduced product has more than {len(ind.red.states)} states (budget)'
+                break
+            try:
+                out = ind.check(timeout_s)
+            except Exception as e:
+                res['reason'] = f'inductive check: {type(e).__name__}: {e}'
+                break
+            for q in out['queries']:
+                q['R_states'] = out.get('R_states')
+                res['queries'].append(q)
+                solver_s += q['solver_s']
+            if verbose:
+                print(f'  check: {out["result"]} {out["queries"]}', file=sys.stderr)
+            r = out['result']
+            if r == 'unknown':
+                res['reason'] = 'solver answered unknown / timed out'
+                break
+            if r in ('frontier', 'not-closed'):
+                k = ind.find_key(out['state'])
+                if k is None:
+                    res['reason'] = 'consecution counterexample does not start in an explored state'
+                    break
+                t, prims, edges = prod.actions[out['action']]
+                ti = prod.threads.index(t)
+                e = next((e for e in edges if e.src == out['state']['pcs'][ti]), None)
+                if r == 'not-closed' or e is None:
+                    res['reason'] = ('the learned state set is not closed under the symbolic transition relation '
+                                     f'(action {prims}); concrete and symbolic back ends of a stub disagree')
+                    break
+                try:
+                    ex.continue_from(steps_of(ind.red.path_to(k), (t, e)), {}, None, max_states=local_states, max_s=2.0)
+                except Exception as e_:
+                    res['reason'] = f'frontier expansion: {type(e_).__name__}: {e_}'
+                    break
+                continue
+            if r == 'bad':
+                kind = out.get('kind')
+                if kind == 'overflow':
+                    res['reason'] = 'a container bound of the model (cap) is reachable: raise caps'
+                    break
+                k = ind.find_key(out['state'])
+                path = ind.red.path_to(k)
+                steps = [{'k': i, 'thread': t, 'prims': [(d, c) for d, c, _ in e.prims],
+                          'locs': [l for _, _, l in e.prims]} for i, (t, e) in enumerate(path)]
+                inputs = {n: (v if v is not None else 0) for n, v in zip(ind.red.inames, k[2])}
+                cex = {'kind': kind, 'step': len(steps), 'inputs': inputs, 'steps': steps,
+                       'where': where_pcs(prod, out['state']['pcs']),
+                       'signature': signature_pcs(prod, scn, out['state'], ind, kind)}
+                if on_violation is not None:
+                    decision = on_violation(cex)
+                    if decision is not None:
+                        exclude.append(decision)
+                        res['known'].append(cex)
+                        continue
+                res.update(verdict='violation', cex=cex)
+                break
+            # inductive and safe
+            if want_witness:
+                q, st = ind.witness()
+                res['queries'].append(q)
+                solver_s += q['solver_s']
+                if st is None:
+                    res['reason'] = f'vacuity: no complete correct run exists in the invariant ({q["result"]})'
+                    break
+                k = ind.find_key(st)
+                path = ind.red.path_to(k)
+                res['witness'] = {
+                    'inputs': {n: (v if v is not None else 0) for n, v in zip(ind.red.inames, k[2])},
+                    'steps': [{'k': i, 'thread': t, 'prims': [(d, c) for d, c, _ in e.prims]} for i, (t, e) in enumerate(path)]}
+            res['verdict'] = 'holds'
+            break
+    res['explore'] = ex.stats()
+    res['functions'] = sorted(f'{f}:{q}' for f, q in rt.funcs_seen)
+    if prod is not None:
+        res['product'] = prod.stats()
+    if ind is not None:
+        res['invariant_states'] = len(ind.red.states)
+    res['solver_s'] = round(solver_s, 2)
+    res['wall_s'] = round(time.time() - t0, 2)
+    return res
+
+
+def where_pcs(prod, pcs):
+    out = {}
+    for t, pc in zip(prod.threads, pcs):
+        aut = prod.auts[t]
+        if pc in aut.terminal:
+            out[t] = f'terminated {aut.terminal[pc]}'
+        elif pc in aut.info:
+            (obj, kind, op, iargs), loc = aut.info[pc]
+            out[t] = f'{kind}.{op}({obj}) at {loc[0]}:{loc[1]} in {loc[2]}'
+        else:
+            out[t] = f'pc={pc}'
+    return out
+
+
+def signature_pcs(prod, scn, st, ind, kind):
+    from .bmc import node_label
+    where = {}
+    tag = None
+    vals = dict(zip(ind.red.names, st['vals']))
+    for t, pc in zip(prod.threads, st['pcs']):
+        aut = prod.auts[t]
+        lab = node_label(aut, pc)
+        if kind == 'fail' and pc in aut.terminal and scn.is_fail(t, aut.terminal[pc]):
+            tag = str(aut.terminal[pc][1]).split(':')[0]
+        if lab.startswith('terminated'):
+            continue
+        if vals.get(f'{t}.st') == 0 and pc == aut.init:
+            continue
+        where[t] = lab
+    sig = {'kind': kind, 'where': where}
+    if tag is not None:
+        sig['tag'] = tag
+    return sig
+
+
 def where_threads(enc, prod, m, k):
     """Per thread: the operation it sits at in the violating state."""
     out = {}
@@ -140,6 +347,30 @@ def where_threads(enc, prod, m, k):
         else:
             out[t] = f'pc={pc}'
     return out
+
+
+def signature(enc, prod, m, k, kind):
+    """Line-number free signature of a violation: kind + label of every live thread's position."""
+    from .bmc import node_label
+    st = enc.final_state(m, k)
+    where = {}
+    tag = None
+    for t in prod.threads:
+        aut = prod.auts[t]
+        pc = st[f'$pc.{t}']
+        lab = node_label(aut, pc)
+        if kind == 'fail' and pc in aut.terminal and enc.scn.is_fail(t, aut.terminal[pc]):
+            tag = str(aut.terminal[pc][1]).split(':')[0]
+        if lab.startswith('terminated'):
+            continue
+        stv = f'{t}.st'
+        if stv in st and st[stv] == 0 and pc == aut.init:
+            continue  # never started
+        where[t] = lab
+    sig = {'kind': kind, 'where': where}
+    if tag is not None:
+        sig['tag'] = tag
+    return sig
 
 
 def show_cex(res, file=sys.stderr):
